@@ -125,9 +125,9 @@ type usagePair struct {
 
 // updateUsageQueue zeroes the accumulated usage all ActiveUsers valve and put the usage data im usageUpdateQueue
 func (panel *userPanel) updateUsageQueue() {
-	panel.activeUsersM.Lock()
-	common.VerifPoint("userPanel.updateUsageQueue:betweenLocks")
 	panel.usageUpdateQueueM.Lock()
+	common.VerifPoint("userPanel.updateUsageQueue:betweenLocks")
+	panel.activeUsersM.Lock()
 	for _, user := range panel.activeUsers {
 		if user.bypass {
 			continue
